@@ -196,6 +196,16 @@ def proof_obligations(pid):
         res["discharged"] = len(thms)
     return res
 
+def coqchk(pid, timeout=3000):
+    """Independent re-check of Props_<pid>.vo and everything it depends on (thorough tier). Returns (ok, summary)."""
+    t = time.time()
+    rc, out = sh(["coqchk", "-o", "-silent", "-Q", "theories", "DZ", "DZ.Props_%s" % pid], cwd=COQ, timeout=timeout)
+    summ = out[out.find("CONTEXT SUMMARY"):] if "CONTEXT SUMMARY" in out else out[-1500:]
+    flat = " ".join(summ.split())
+    ok = (rc == 0 and "Axioms: <none>" in flat and "relying on type-in-type: <none>" in flat
+          and "unsafe (co)fixpoints: <none>" in flat and "positivity is assumed: <none>" in flat)
+    return ok, {"rc": rc, "wall_s": round(time.time() - t, 1), "summary": flat[:600]}
+
 # ---------------------------------------------------------------- Coq evaluation of cases
 
 def parse_coq_term(s):
